@@ -65,6 +65,22 @@ type MessageVerifBad7 struct {
 
 func (*MessageVerifBad7) GetID() uint32 { return 4000000 }
 
+// malformed: arrays of enums whose element type cannot carry an enum
+type VerifEnumInt8 int8
+
+type MessageVerifBad8 struct {
+	Modes [4]VerifEnumInt8 `mavenum:"uint8"`
+}
+
+func (*MessageVerifBad8) GetID() uint32 { return 4000000 }
+
+type MessageVerifBad9 struct {
+	A     uint8
+	Modes [2]float32 `mavenum:"uint32"`
+}
+
+func (*MessageVerifBad9) GetID() uint32 { return 4000000 }
+
 // D2: a dialect with duplicate ids or a malformed message struct is rejected when it is initialised
 func verifHarness_C17_duplicates(k int, bad int) {
 	all := []message.Message{&MessageVerifDynA{}, &MessageVerifDynB{}, &MessageVerifDynC{}, &MessageVerifDynD{}}
@@ -93,6 +109,10 @@ func verifHarness_C17_duplicates(k int, bad int) {
 		msgs = append(msgs, &MessageVerifBad6{})
 	case 7:
 		msgs = append(msgs, &MessageVerifBad7{})
+	case 10:
+		msgs = append(msgs, &MessageVerifBad8{})
+	case 11:
+		msgs = append(msgs, &MessageVerifBad9{})
 	case 8:
 		// the very same message value listed twice (a list built by concatenation): a duplicate id all the same
 		msgs = append(msgs, msgs[0])
